@@ -21,16 +21,22 @@ def _fp_worker(args):
         c = cf.load_c(repo, files=[fname])[fname]
         _G[(repo, fname)] = c
     ext = set(c.externs)
+    tables = fname == "base.c"
+    if tables:
+        # base.c reaches BLAS through per-type function-pointer tables: gemv[id](...)
+        ext |= {"tbl:" + t for t in ("scal", "gemv", "gemm", "syrk", "symv", "axpy")}
     sim = cm.Simulator(c, fn)
     g = cg.global_sign_facts(sim)
     allocs = cg.local_allocations(sim)
     seen = {}
     ncase = 0
     nsite = 0
-    for case in sim.cases():
+    for case in (sim.cases(mids=(None,)) if tables else sim.cases()):
         ncase += 1
         sites, end = sim.run(case, ext)
         for s in sites:
+            if tables and not s.callee.startswith("tbl:"):
+                continue
             nsite += 1
             for st, what, detail, exp, obs in cg.check_site(s, sim, g, kbmod, allocs):
                 fl = " ".join("%s=%s" % kv for kv in sorted(case.flags.items()))
